@@ -20,6 +20,7 @@ CONSTANTS
   CfModes = {"plain"}
   DevRebuildMergesAcrossState = FALSE
   DevEncCheckIgnoresStrict = FALSE
+  DevCasefoldOpaqueHashFails = FALSE
   DevDupFoldsPlainDir = FALSE
   DevInodeUninitWipes = TRUE
 INVARIANT TypeOK
